@@ -146,6 +146,9 @@ def explore(spec):
             first_use.append(i + 1)
     first_use = set(first_use)
     ks = spec.get('ks') or list(range(1, n + 1))
+    if spec.get('of'):
+        # one of several interleaved slices of the complete line set (the slices of a pair run on different cores)
+        ks = ks[spec.get('slice', 0)::spec['of']]
     if spec.get('max_k') and len(ks) > spec['max_k']:
         # deterministic thinning: every stride-th line, window rotated by 'offset' (the seed)
         stride = -(-len(ks) // spec['max_k'])
